@@ -19,19 +19,26 @@ Definition i_l007_check := l007_check letter digit upper keywords_tab.
 Definition i_cli_fix := cli_fix letter digit space upper keywords_tab.
 Definition i_format := format_sql space upper.
 
-(* byte-level wrappers used by the correspondence cases *)
+(* byte-level wrapper used by the correspondence cases *)
 Definition onb (f : list ch -> list ch) (s : list N) : list N := encode (f (decode s)).
-Definition fix_case (f : list ch -> list ch) (c : list N * list N) : bool := nlist_eqb (onb f (fst c)) (snd c).
-Definition chk_case (f : list ch -> list viol) (c : list N * list (N * N)) : bool :=
-  vlist_eqb (viols_N (f (decode (fst c)))) (snd c).
 
 (* ---- facts about the regenerated tables (complete evaluation of finite tables) ---- *)
 
-(* every upper-case image in the table is a letter, is neither quote character nor the newline, and is its own image *)
+Definition plainNb (n : N) : bool :=
+  negb (nq n =? 39) && negb (nq n =? 34) && negb (n =? 96) && negb (n =? 45) && negb (n =? 42) && negb (n =? 47) && negb (n =? 10).
+Lemma plainNb_spec : forall n, plainNb n = true -> plainN n.
+Proof.
+  intros n H. unfold plainNb in H. repeat (apply andb_prop in H; destruct H as [H ?]).
+  unfold plainN. repeat split; apply N.eqb_neq; apply negb_true_iff; assumption.
+Qed.
+
+(* every entry (x, u) of the upper-case table: x and u are not delimiters of the scanner, u is a letter and its own image,
+   x is not white space *)
 Definition up_entry_ok (kv : N * N) : bool :=
-  let u := snd kv in
-  letter u && negb (u =? 39) && negb (u =? 34) && negb (u =? 10) &&
-  match upper u with Some u' => u' =? u | None => false end.
+  let x := fst kv in let u := snd kv in
+  plainNb x && plainNb u && letter u && (u <? 128) &&
+  match upper u with Some u' => u' =? u | None => false end &&
+  negb (space x) && negb (x =? 32) && negb (x =? 9) && negb (x =? 10).
 
 Lemma up_tab_ok : forallb up_entry_ok upper_ascii_tab = true.
 Proof. vm_compute. reflexivity. Qed.
@@ -41,125 +48,34 @@ Proof.
   intros x u H. apply assoc_in in H. pose proof up_tab_ok as T. rewrite forallb_forall in T. apply T. exact H.
 Qed.
 
+Ltac up_split H := unfold up_entry_ok in H; cbn [fst snd] in H; repeat (apply andb_prop in H; destruct H as [H ?]).
+
+Lemma up_plain : forall x u, upper x = Some u -> plainN x /\ plainN u.
+Proof.
+  intros x u H. apply up_entry in H. up_split H. split; [|apply plainNb_spec; assumption].
+  unfold plainN. repeat split; apply N.eqb_neq; apply negb_true_iff; assumption.
+Qed.
 Lemma up_letter : forall x u, upper x = Some u -> letter u = true.
-Proof.
-  intros x u H. apply up_entry in H. unfold up_entry_ok in H. cbn [snd] in H.
-  repeat (apply andb_prop in H; destruct H as [H ?]). exact H.
-Qed.
-
-Lemma up_noquote : forall x u, upper x = Some u -> u <> 39 /\ u <> 34 /\ u <> 10.
-Proof.
-  intros x u H. apply up_entry in H. unfold up_entry_ok in H. cbn [snd] in H.
-  repeat (apply andb_prop in H; destruct H as [H ?]).
-  repeat split; apply N.eqb_neq; apply negb_true_iff; assumption.
-Qed.
-
+Proof. intros x u H. apply up_entry in H. up_split H. assumption. Qed.
+Lemma up_ascii : forall x u, upper x = Some u -> u < 128.
+Proof. intros x u H. apply up_entry in H. up_split H. apply N.ltb_lt. assumption. Qed.
 Lemma up_idem : forall x u, upper x = Some u -> upper u = Some u.
 Proof.
-  intros x u H. apply up_entry in H. unfold up_entry_ok in H. cbn [snd] in H.
-  apply andb_prop in H. destruct H as [_ H]. destruct (upper u) as [u'|]; [|discriminate].
-  apply N.eqb_eq in H. subst. reflexivity.
+  intros x u H. apply up_entry in H. up_split H.
+  match goal with X : match upper u with _ => _ end = true |- _ => destruct (upper u) as [u'|]; [apply N.eqb_eq in X; subst; reflexivity|discriminate] end.
 Qed.
-
-(* a rune with an ASCII upper-case image is not white space, and neither is its image *)
-Definition up_key_ok (kv : N * N) : bool :=
-  let x := fst kv in negb (space x) && negb (x =? 32) && negb (x =? 9) && negb (x =? 10).
-Lemma up_keys_ok : forallb up_key_ok upper_ascii_tab = true.
-Proof. vm_compute. reflexivity. Qed.
 Lemma up_nows : forall x u, upper x = Some u -> space x = false /\ x <> 32 /\ x <> 9 /\ x <> 10.
 Proof.
-  intros x u H. apply assoc_in in H. pose proof up_keys_ok as T. rewrite forallb_forall in T. specialize (T _ H).
-  unfold up_key_ok in T. cbn [fst] in T. repeat (apply andb_prop in T; destruct T as [T ?]).
-  split; [apply negb_true_iff; exact T|]. repeat split; apply N.eqb_neq; apply negb_true_iff; assumption.
-Qed.
-
-Definition up_key_noquote (kv : N * N) : bool := negb (fst kv =? 39) && negb (fst kv =? 34).
-Lemma up_keys_noquote : forallb up_key_noquote upper_ascii_tab = true.
-Proof. vm_compute. reflexivity. Qed.
-Lemma up_keynoquote : forall x u, upper x = Some u -> x <> 39 /\ x <> 34.
-Proof.
-  intros x u H. apply assoc_in in H. pose proof up_keys_noquote as T. rewrite forallb_forall in T. specialize (T _ H).
-  unfold up_key_noquote in T. cbn [fst] in T. apply andb_prop in T. destruct T as [T1 T2].
-  split; apply N.eqb_neq; apply negb_true_iff; assumption.
-Qed.
-
-Lemma up_vals_ascii : forallb (fun kv : N * N => snd kv <? 128) upper_ascii_tab = true.
-Proof. vm_compute. reflexivity. Qed.
-Lemma up_ascii : forall x u, upper x = Some u -> u < 128.
-Proof.
-  intros x u H. apply assoc_in in H. pose proof up_vals_ascii as T. rewrite forallb_forall in T. specialize (T _ H).
-  cbn [snd] in T. apply N.ltb_lt. exact T.
-Qed.
-
-(* the back quote is not in the table either *)
-Lemma up_tab_no96 : forallb (fun kv : N * N => negb (fst kv =? 96) && negb (snd kv =? 96)) upper_ascii_tab = true.
-Proof. vm_compute. reflexivity. Qed.
-Lemma up_keynobt : forall x u, upper x = Some u -> x <> 96.
-Proof.
-  intros x u H. apply assoc_in in H. pose proof up_tab_no96 as T. rewrite forallb_forall in T. specialize (T _ H).
-  cbn [fst snd] in T. apply andb_prop in T. destruct T as [T _]. apply N.eqb_neq. apply negb_true_iff. exact T.
-Qed.
-Lemma up_nobt : forall x u, upper x = Some u -> u <> 96.
-Proof.
-  intros x u H. apply assoc_in in H. pose proof up_tab_no96 as T. rewrite forallb_forall in T. specialize (T _ H).
-  cbn [fst snd] in T. apply andb_prop in T. destruct T as [_ T]. apply N.eqb_neq. apply negb_true_iff. exact T.
-Qed.
-
-(* the minus sign is neither a letter nor a digit nor a rune with an upper-case ASCII image: a line comment start
-   never lies inside a word *)
-Lemma nl45 : letter 45 = false. Proof. vm_compute. reflexivity. Qed.
-Lemma nd45 : digit 45 = false. Proof. vm_compute. reflexivity. Qed.
-Lemma up_keys_not45 : forallb (fun kv : N * N => negb (fst kv =? 45)) upper_ascii_tab = true.
-Proof. vm_compute. reflexivity. Qed.
-Lemma up_key45 : forall x u, upper x = Some u -> x <> 45.
-Proof.
-  intros x u H. apply assoc_in in H. pose proof up_keys_not45 as T. rewrite forallb_forall in T. specialize (T _ H).
-  cbn [fst] in T. apply N.eqb_neq. apply negb_true_iff. exact T.
+  intros x u H. apply up_entry in H. up_split H.
+  repeat split; try (apply N.eqb_neq); apply negb_true_iff; assumption.
 Qed.
 
 (* the keyword table holds upper-case ASCII letters only (so that a converted keyword is a fixed point) *)
 Lemma keywords_upper : forallb (forallb (fun b => (65 <=? b) && (b <=? 90))) keywords_tab = true.
 Proof. vm_compute. reflexivity. Qed.
 
-(* space and tab are spaces (formatSQL's indentation is removed again by TrimSpace) *)
+(* space, tab and newline are spaces; the delimiters of the scanner are not *)
 Lemma space_32_9 : space 32 = true /\ space 9 = true /\ space 10 = true.
 Proof. vm_compute. repeat split. Qed.
-
-(* ---- refutations of the full preservation statement on the faithful model: concrete witnesses, evaluated (lib/c17.py
-        replays each witness on the implementation) ---- *)
-Definition rcode (v : list vtok) : list N :=
-  flat_map (fun x => match x with VW => [0] | VC n => [1; n] | VL c => 2 :: cp c :: raw c end)%N v.
-Ltac refute w := exists (decode w); let H := fresh "H" in (intro H; apply (f_equal rcode) in H; vm_compute in H; discriminate H).
-(* trailing blanks inside a multi-line string literal are removed *)
-Lemma refuted_l001 : exists t, reading space upper (l001_fix t) <> reading space upper t.
-Proof. refute ([120; 32; 39; 97; 32; 32; 10; 98; 39]%N). Qed.
-(* a leading tab on the second line of a string literal becomes four spaces *)
-Lemma refuted_l002 : exists t, reading space upper (l002_fix t) <> reading space upper t.
-Proof. refute ([39; 97; 10; 9; 98; 39]%N). Qed.
-(* a blank line inside a string literal is removed *)
-Lemma refuted_l003 : exists t, reading space upper (i_l003_fix t) <> reading space upper t.
-Proof. refute ([39; 97; 10; 10; 10; 98; 39]%N). Qed.
-(* repeated spaces on the second line of a string literal are collapsed *)
-Lemma refuted_l010_string : exists t, reading space upper (l010_fix t) <> reading space upper t.
-Proof. refute ([39; 97; 10; 98; 32; 32; 99; 39]%N). Qed.
-(* repeated spaces on the second line of a back-quoted identifier are collapsed *)
-Lemma refuted_l010_backtick : exists t, reading space upper (l010_fix t) <> reading space upper t.
-Proof. refute ([96; 97; 10; 98; 32; 32; 99; 96]%N). Qed.
-(* a keyword on the second line of a string literal is upper-cased *)
-Lemma refuted_l007_string : exists t, reading space upper (i_l007_fix t) <> reading space upper t.
-Proof. refute ([39; 97; 10; 115; 101; 108; 101; 99; 116; 39]%N). Qed.
-(* a keyword on the second line of a back-quoted identifier is upper-cased *)
-Lemma refuted_l007_backtick : exists t, reading space upper (i_l007_fix t) <> reading space upper t.
-Proof. refute ([96; 97; 10; 115; 101; 108; 101; 99; 116; 96]%N). Qed.
-(* repeated spaces inside a block comment are collapsed *)
-Lemma refuted_l010_block_comment : exists t, reading space upper (l010_fix t) <> reading space upper t.
-Proof. refute ([120; 32; 47; 42; 32; 97; 32; 32; 98; 32; 42; 47]%N). Qed.
-(* a keyword inside a block comment is upper-cased *)
-Lemma refuted_l007_block_comment : exists t, reading space upper (i_l007_fix t) <> reading space upper t.
-Proof. refute ([120; 32; 47; 42; 32; 115; 101; 108; 101; 99; 116; 32; 42; 47]%N). Qed.
-(* the CLI loop applies all of the above *)
-Lemma refuted_cli : exists t, reading space upper (i_cli_fix t) <> reading space upper t.
-Proof. refute ([39; 97; 32; 32; 10; 10; 10; 9; 115; 101; 108; 101; 99; 116; 32; 32; 120; 39]%N). Qed.
-(* formatSQL trims the lines of a multi-line string literal *)
-Lemma refuted_format : exists t, reading space upper (i_format 2 true false t) <> reading space upper t.
-Proof. refute ([39; 97; 10; 32; 32; 98; 39]%N). Qed.
+Lemma sp_nodelim : sp_ok space.
+Proof. vm_compute. repeat split. Qed.
